@@ -1,5 +1,8 @@
 // Package simatomic replaces sync/atomic in rewritten code under test: a yield
-// before each operation, then the real operation.
+// before each operation, the real operation, and a yield after it. The second
+// yield lets other tasks run between an atomic operation and the plain memory
+// accesses that follow it in program order (a flag published before the data it
+// guards is otherwise invisible, because plain accesses are not seams).
 package simatomic
 
 import (
@@ -11,21 +14,58 @@ import (
 var Ops int64
 
 func y(op string) { Ops++; simrt.Yield("atomic." + op) }
+func z(op string) { simrt.Yield("atomic." + op + ".done") }
 
-func LoadUint32(p *uint32) uint32          { y("LoadUint32"); return atomic.LoadUint32(p) }
-func StoreUint32(p *uint32, v uint32)      { y("StoreUint32"); atomic.StoreUint32(p, v) }
-func AddUint32(p *uint32, d uint32) uint32 { y("AddUint32"); return atomic.AddUint32(p, d) }
-func LoadInt32(p *int32) int32             { y("LoadInt32"); return atomic.LoadInt32(p) }
-func StoreInt32(p *int32, v int32)         { y("StoreInt32"); atomic.StoreInt32(p, v) }
-func AddInt32(p *int32, d int32) int32     { y("AddInt32"); return atomic.AddInt32(p, d) }
-func LoadInt64(p *int64) int64             { y("LoadInt64"); return atomic.LoadInt64(p) }
-func StoreInt64(p *int64, v int64)         { y("StoreInt64"); atomic.StoreInt64(p, v) }
-func AddInt64(p *int64, d int64) int64     { y("AddInt64"); return atomic.AddInt64(p, d) }
+func LoadUint32(p *uint32) uint32 {
+	y("LoadUint32")
+	v := atomic.LoadUint32(p)
+	z("LoadUint32")
+	return v
+}
+func StoreUint32(p *uint32, v uint32) {
+	y("StoreUint32")
+	atomic.StoreUint32(p, v)
+	z("StoreUint32")
+}
+func AddUint32(p *uint32, d uint32) uint32 {
+	y("AddUint32")
+	v := atomic.AddUint32(p, d)
+	z("AddUint32")
+	return v
+}
+func LoadInt32(p *int32) int32 { y("LoadInt32"); v := atomic.LoadInt32(p); z("LoadInt32"); return v }
+func StoreInt32(p *int32, v int32) {
+	y("StoreInt32")
+	atomic.StoreInt32(p, v)
+	z("StoreInt32")
+}
+func AddInt32(p *int32, d int32) int32 {
+	y("AddInt32")
+	v := atomic.AddInt32(p, d)
+	z("AddInt32")
+	return v
+}
+func LoadInt64(p *int64) int64 { y("LoadInt64"); v := atomic.LoadInt64(p); z("LoadInt64"); return v }
+func StoreInt64(p *int64, v int64) {
+	y("StoreInt64")
+	atomic.StoreInt64(p, v)
+	z("StoreInt64")
+}
+func AddInt64(p *int64, d int64) int64 {
+	y("AddInt64")
+	v := atomic.AddInt64(p, d)
+	z("AddInt64")
+	return v
+}
 func CompareAndSwapUint32(p *uint32, o, n uint32) bool {
 	y("CompareAndSwapUint32")
-	return atomic.CompareAndSwapUint32(p, o, n)
+	v := atomic.CompareAndSwapUint32(p, o, n)
+	z("CompareAndSwapUint32")
+	return v
 }
 func CompareAndSwapInt32(p *int32, o, n int32) bool {
 	y("CompareAndSwapInt32")
-	return atomic.CompareAndSwapInt32(p, o, n)
+	v := atomic.CompareAndSwapInt32(p, o, n)
+	z("CompareAndSwapInt32")
+	return v
 }
